@@ -32,6 +32,11 @@ def main():
     ap.add_argument("--scratch", action="store_true", help="evaluate in a scratch worktree instead of /repo")
     a = ap.parse_args()
     patch = os.path.abspath(a.patch)
+    # hook commits made after a change was written may touch its context lines: a rebased copy of
+    # the patch (same change, current hook layout) is kept next to the original
+    rebased = os.path.join(os.path.dirname(patch), "patch_rebased.diff")
+    if os.path.basename(patch) == "patch.diff" and os.path.exists(rebased):
+        patch = rebased
     if a.scratch:
         # evaluation in a scratch worktree: /repo is not touched (used while long runs build from /repo)
         wt = "/tmp/ksim-scratch-%d" % os.getpid()
